@@ -13,6 +13,7 @@ Selectors raise SelectorMiss when the code no longer has the expected shape.
 from __future__ import annotations
 
 import ast
+import re
 import copy
 from dataclasses import dataclass, field
 from typing import Callable
@@ -757,3 +758,56 @@ add("pccMidpoint", "Score", ["C07", "C04"], "acryo/backend/_pcc.py", "expr", [("
 add("pccWrapCond", "Score", ["C07", "C04"], "acryo/backend/_pcc.py", "expr",
     [("shifts", R), ("midpoints", R)],
     lambda t: assign_rhs(func(t, "subpixel_pcc"), "sl"))
+
+
+# ==========================================================================================
+# C09  random half split
+# ==========================================================================================
+add("splitDraws", "Split", ["C09", "C17"], "acryo/loader/_misc.py", "expr", [("nmole", I)],
+    lambda t: call(func(t, "random_splitter"), "rng.choice").args[1])
+
+
+def _splitter_structure(t):
+    fn = func(t, "random_splitter")
+    body = [_unparse_norm(s) for s in fn.body
+            if not (isinstance(s, ast.Expr) and isinstance(s.value, ast.Constant))]
+    want = ["sl=rng.choice(np.arange(nmole),nmole//2).tolist()",
+            "indices0=np.zeros(nmole,dtype=np.bool_)", "indices0[sl]=True",
+            "indices1=np.ones(nmole,dtype=np.bool_)", "indices1[sl]=False",
+            "return(indices0,indices1)"]
+    # the number of draws is a separate (translated) kernel; compare the rest literally
+    body[0] = re.sub(r"rng\.choice\(np\.arange\(nmole\),.*\)\.tolist\(\)", "rng.choice(np.arange(nmole),K).tolist()", body[0])
+    want[0] = "sl=rng.choice(np.arange(nmole),K).tolist()"
+    if body != want:
+        raise SelectorMiss("random_splitter body changed: " + " ; ".join(body))
+    return True
+
+
+add("splitterComplementary", "Split", ["C09", "C17"], "acryo/loader/_misc.py", "const", [],
+    pattern(_splitter_structure))
+
+
+def _split_loop(qual):
+    def sel(t):
+        fn = func(t, qual)
+        loop = first(fn, ast.For, lambda n: "n_set" in ast.unparse(n.iter))
+        if _unparse_norm(loop.iter) != "range(n_set)":
+            raise SelectorMiss("loop over range(n_set)")
+        c = call(loop, "_misc.random_splitter")
+        if _unparse_norm(c) != "_misc.random_splitter(rng,nmole)":
+            raise SelectorMiss("splitter call")
+        # both halves are means of the masked stack
+        src = _unparse_norm(loop)
+        if not (("dsk[ind0].rechunk(chunksize).mean(axis=0)" in src and "dsk[ind1].rechunk(chunksize).mean(axis=0)" in src)
+                or ("da.mean(dask_array[ind0],axis=0)" in src and "da.mean(dask_array[ind1],axis=0)" in src)):
+            raise SelectorMiss("half averages are not means of stack[ind0] / stack[ind1]")
+        return True
+    return sel
+
+
+add("splitLoopLoader", "Split", ["C09", "C17"], "acryo/loader/_base.py", "const", [],
+    pattern(_split_loop("LoaderBase.average_split")))
+add("splitLoopGroup", "Split", ["C09", "C17"], "acryo/loader/_group.py", "const", [],
+    pattern(_split_loop("LoaderGroup.average_split")))
+add("splitSqueeze", "Split", ["C09"], "acryo/loader/_base.py", "expr", [("squeeze", B), ("n_set", I)],
+    lambda t: first(func(t, "LoaderBase.average_split"), ast.If, lambda n: "squeeze" in ast.unparse(n.test)).test)
